@@ -10,8 +10,10 @@ CONSTANTS
   RejectDelta = 4
   MaxHeight = 1000
   MaxNow = 1000
+  Margins = {0, 1, 2}
+  ExpiredOffs = {1, 10, 90}
   KeysendQuirk = TRUE
   Guarded = FALSE
-INVARIANTS ConformRes ConformHodl ConformInv ConformHtlc ConformReset TypeOK SettledIsPaid AmtPaidExact StatesAgree
+INVARIANTS ConformRes ConformHodl StoreResAgree StoreAmtPaidExact StoreStatesAgree StoreForward ConformInv ConformHtlc ConformReset TypeOK SettledIsPaid AmtPaidExact StatesAgree
 PROPERTIES TForwardOnly TResolutionsAgree TReplaySameVerdict
 CHECK_DEADLOCK TRUE
